@@ -87,7 +87,7 @@ func (c *scriptConn) Read(p []byte) (int, error) {
 	for c.pos < len(c.script) {
 		st := &c.script[c.pos]
 		switch st.K {
-		case "chunk":
+		case "chunk", "chunkeof":
 			m := st.N
 			if m > len(c.reply)-c.off {
 				m = len(c.reply) - c.off
@@ -104,6 +104,12 @@ func (c *scriptConn) Read(p []byte) (int, error) {
 			}
 			copy(p, c.reply[c.off:c.off+m])
 			l.lastLogged = true
+			if st.K == "chunkeof" && st.N <= 0 {
+				// the transport hands over its last bytes together with the end-of-stream indication (io.Reader allows it)
+				l.add(Ev{"ev": "conn.read", "bytes": ints(c.reply[c.off : c.off+m]), "n": m, "err": "eof"})
+				c.off += m
+				return m, io.EOF
+			}
 			l.add(Ev{"ev": "conn.read", "bytes": ints(c.reply[c.off : c.off+m]), "n": m, "err": "none"})
 			c.off += m
 			return m, nil
